@@ -286,7 +286,7 @@ def _mk_wf(mode):
         z3.If(is_any(_v, QUOTS), z3.And(wf(field(_v, QUOTS, 'numerator')), wf(field(_v, QUOTS, 'denominator')),
                                         mode.val(field(_v, QUOTS, 'denominator')) != 0),
         z3.If(is_any(_v, POWS), z3.And(wf(field(_v, POWS, 'base')), wf(field(_v, POWS, 'exponent'))),
-              z3.And(is_expression(_v), z3.Not(is_any(_v, ('LogicLiteral', 'StringLiteral')))))))))
+              z3.And(is_expression(_v), z3.Not(is_any(_v, ('LogicLiteral', 'StringLiteral') + (('FloatLiteral',) if mode.m == 'Z' else ())))))))))
     z3.RecAddDefinition(wfl, [_l], z3.If(VL.is_nil(_l), True, z3.And(wf(VL.hd(_l)), wfl(VL.tl(_l)))))
     mode.wf, mode.wfl = wf, wfl
     a, b = z3.Consts('a!wf b!wf', VL)
@@ -369,10 +369,163 @@ T.veq = lambda a, b: peq(a, b)
 
 
 def lemmas_for(mode):
-    return mode.lemmas() + PEQ_AXIOMS + REAL_AXIOMS + mode.wf_lemmas + [zero_lemma(mode)]
+    return (mode.lemmas() + PEQ_AXIOMS + REAL_AXIOMS + mode.wf_lemmas + [zero_lemma(mode)]
+            + [_app_lemma(mode.prodv, lambda p, q: p * q, 'prod' + mode.m), ALLNZ_APP])
 
 
 def ground_for(mode):
     from pyvc.core import ground_instances
     ax = PEQ_AXIOMS + REAL_AXIOMS
     return lambda terms: ground_instances(ax, terms)
+
+
+# ---- callee contracts as uninterpreted functions ------------------------------------------------------
+class ValueContract:
+    """CONTRACT of a pure value-preserving function `name(expr, ...)`: modelled as an uninterpreted function
+    F(expr, site) of its expression argument (site = opaque per-call-site token standing for the other
+    arguments, so no equality between different calls is assumed) with the quantified contract
+        wf(x)  =>  val(F(x, s)) == val(x)  and  wf(F(x, s))
+    used as a lemma in proofs and ground-instantiated in refutations.  Because it is a function of x it can be
+    used inside comprehensions over sequences of symbolic length."""
+
+    _cache = {}
+
+    def __new__(cls, name, mode, negate=False):
+        key = (name, mode.m, negate)
+        if key in cls._cache:
+            return cls._cache[key]
+        self = object.__new__(cls)
+        cls._cache[key] = self
+        self.name, self.mode, self.negate = name, mode, negate
+        self.F = z3.Function('F_%s_%s' % (name, mode.m), V, z3.IntSort(), V)
+        x, s = z3.Const('x!vc', V), z3.Int('s!vc')
+        rhs = -mode.val(x) if negate else mode.val(x)
+        self.axiom = z3.ForAll([x, s], z3.Implies(mode.wf(x), z3.And(mode.val(self.F(x, s)) == rhs,
+                                                                     mode.wf(self.F(x, s)))),
+                               patterns=[self.F(x, s)])
+        return self
+
+    def __call__(self, x, *a, **kw):
+        site = ctx().fresh(z3.IntSort(), 'site_' + self.name)
+        xt = T.lift(x)
+        r = self.F(xt, site)
+        rhs = -self.mode.val(xt) if self.negate else self.mode.val(xt)
+        ctx().assume(z3.Implies(self.mode.wf(xt), z3.And(self.mode.val(r) == rhs, self.mode.wf(r))))
+        return SV(T, r)
+
+
+def contract_axioms(contracts):
+    return [c.axiom for c in contracts]
+
+
+def comp_lemma(tag, seq_term, stmt):
+    """Inside a comprehension hook: prove  forall L. stmt(L)  by list induction (two obligations under the
+    current path condition, on fresh list variables), then use the instance for the actual sequence."""
+    c = ctx()
+    x = c.fresh(V, 'ind_x')
+    r = c.fresh(VL, 'ind_r')
+    c.check(stmt(VL.nil), 'comp/%s/base' % tag)
+    c.check(z3.Implies(stmt(r), stmt(VL.cons(x, r))), 'comp/%s/step' % tag)
+    c.assume(stmt(seq_term))
+
+
+# ---- exponentiation: trusted semantics of `**` (Fortran and Python agree on these laws) ----------------
+_pa, _pb = z3.Ints('a!pw b!pw')
+_ra, _rb = z3.Reals('a!pwr b!pwr')
+POW_AXIOMS = [
+    z3.ForAll([_pa, _pb], z3.And(z3.Implies(_pb == 0, powZ(_pa, _pb) == 1), z3.Implies(_pb == 1, powZ(_pa, _pb) == _pa),
+                                 z3.Implies(_pa == 1, powZ(_pa, _pb) == 1)), patterns=[powZ(_pa, _pb)]),
+    z3.ForAll([_ra, _rb], z3.And(z3.Implies(_rb == 0, powR(_ra, _rb) == 1), z3.Implies(_rb == 1, powR(_ra, _rb) == _ra),
+                                 z3.Implies(_ra == 1, powR(_ra, _rb) == 1)), patterns=[powR(_ra, _rb)]),
+    # integer and real power agree on integer operands with a non-negative exponent
+    z3.ForAll([_pa, _pb], z3.Implies(_pb >= 0, z3.ToReal(powZ(_pa, _pb)) == powR(z3.ToReal(_pa), z3.ToReal(_pb))),
+              patterns=[powZ(_pa, _pb)]),
+]
+
+
+def sym_pow(a, b):
+    """python `a ** b` on numbers: the same mathematical function as the target language's power"""
+    if isinstance(a, (SReal, float)) or isinstance(b, (SReal, float)):
+        return SReal(powR(values.as_real_term(a), values.as_real_term(b)))
+    return mk_int(powZ(values.as_int_term(a), values.as_int_term(b)))
+
+
+T.sym_pow = sym_pow
+
+
+# ---- list lemmas (each proved by structural induction on every run; see lemma_proofs) ----------------
+def _app_lemma(fold, combine, name):
+    a, b = z3.Consts('a!%s b!%s' % (name, name), VL)
+    return z3.ForAll([a, b], fold(T.app(a, b)) == combine(fold(a), fold(b)), patterns=[fold(T.app(a, b))])
+
+
+def _prove_app_lemma(fold, combine, extra=()):
+    from pyvc.core import _mk_solver, P_BIG
+    b = z3.Const('ind!b', VL)
+    x, r = z3.Const('ind!x', V), z3.Const('ind!r', VL)
+    stmt = lambda a: fold(T.app(a, b)) == combine(fold(a), fold(b))
+    out = []
+    for tag, hyps, goal in (('base', [], stmt(VL.nil)), ('step', [stmt(r)], stmt(VL.cons(x, r)))):
+        s = _mk_solver(P_BIG)
+        for e in extra:
+            s.add(e)
+        for h in hyps:
+            s.add(h)
+        s.add(z3.Not(goal))
+        out.append((tag, str(s.check())))
+    return out
+
+
+def _prove_prod_app(mode):
+    """calc-style proof of the step (nonlinear): the associativity instance is proved on pure variables and
+    handed to the solver as a ground hint, so that only congruence is needed on the RecFunction terms"""
+    from pyvc.core import _mk_solver, P_BIG
+    srt = z3.IntSort() if mode.m == 'Z' else z3.RealSort()
+    v, p, q, w = [z3.Const('nl!%s' % n, srt) for n in 'vpqw']
+    arith = lambda v, p, q, w: z3.Implies(p == q * w, v * p == (v * q) * w)
+    out = []
+    s = _mk_solver(P_BIG)
+    s.add(z3.Not(arith(v, p, q, w)))
+    out.append(('assoc-instance', str(s.check())))
+    b = z3.Const('ind!b', VL)
+    x, r = z3.Const('ind!x', V), z3.Const('ind!r', VL)
+    fold = mode.prodv
+    stmt = lambda a: fold(T.app(a, b)) == fold(a) * fold(b)
+    s = _mk_solver(P_BIG)
+    s.add(z3.Not(stmt(VL.nil)))
+    out.append(('base', str(s.check())))
+    # step, split so that no query mixes RecFunction unfolding with nonlinear arithmetic:
+    #   U1: fold(app(cons(x,r),b)) == val(x)*fold(app(r,b))      (definitional)
+    #   U2: fold(cons(x,r))        == val(x)*fold(r)             (definitional)
+    #   PURE: P == Q*W and L == v*P and M == v*Q  =>  L == M*W   (arithmetic on plain variables)
+    # the step is the instance of PURE at P=fold(app(r,b)), Q=fold(r), W=fold(b), L, M as in U1, U2.
+    s = _mk_solver(P_BIG)
+    s.add(z3.Not(fold(T.app(VL.cons(x, r), b)) == mode.val(x) * fold(T.app(r, b))))
+    out.append(('step/U1', str(s.check())))
+    s = _mk_solver(P_BIG)
+    s.add(z3.Not(fold(VL.cons(x, r)) == mode.val(x) * fold(r)))
+    out.append(('step/U2', str(s.check())))
+    L, M = z3.Const('nl!L', srt), z3.Const('nl!M', srt)
+    s = _mk_solver(P_BIG)
+    s.add(p == q * w, L == v * p, M == v * q, z3.Not(L == M * w))
+    out.append(('step/PURE', str(s.check())))
+    return out
+
+
+ALLNZ_APP = _app_lemma(allnz, z3.And, 'allnz')
+
+
+def lemma_proofs():
+    """(name, thunk -> [(case, 'unsat'|...)]) for every lemma the C08/C09/C10 proofs use"""
+    out = []
+    for mode in (MZ, MR):
+        out.append(('zero-lemma[%s]: not truthy(v) and wf(v) => val(v) == 0' % mode.m,
+                    lambda mode=mode: prove_zero_lemma(mode)))
+        out.append(('sum-app[%s]: sumv(app(a,b)) == sumv(a)+sumv(b)' % mode.m,
+                    lambda mode=mode: _prove_app_lemma(mode.sumv, lambda p, q: p + q)))
+        out.append(('prod-app[%s]: prodv(app(a,b)) == prodv(a)*prodv(b)' % mode.m,
+                    lambda mode=mode: _prove_prod_app(mode)))
+        out.append(('wfl-app[%s]: wfl(app(a,b)) == wfl(a) and wfl(b)' % mode.m,
+                    lambda mode=mode: _prove_app_lemma(mode.wfl, z3.And)))
+    out.append(('allnz-app: allnz(app(a,b)) == allnz(a) and allnz(b)', lambda: _prove_app_lemma(allnz, z3.And)))
+    return out
